@@ -30,6 +30,9 @@ FirstNOISE == TokNOISE \cup {TokFin, TokRst,
                 TokFrame(<<51>>),                       \* history "after ok" is just a frame
                 <<"badframe">>, <<"badesc">>}           \* histories after invmsg / invesc
 
+\* NOISEH: NOISE plus finalize / reset anywhere (reset while noise or a partial start sequence is pending)
+TokNOISEH == TokNOISE \cup {TokFin, TokRst}
+
 \* PAY: all payloads over PayBytes up to PayLen as a first frame token
 RECURSIVE SeqsUpTo(_, _)
 SeqsUpTo(S, n) == IF n = 0 THEN {<<>>}
